@@ -5,7 +5,7 @@
 
 use crate::core::{guarded, Ctx, Outcome};
 use crate::json::{hex, unhex, J};
-use crate::obj::{collapse, gen_bh};
+use crate::obj::{collapse, gen_bh, gen_bh_edges};
 use crate::rng::Rng;
 use ssdeep::internal_comparison::{BlockHashPositionArray, BlockHashPositionArrayData, BlockHashPositionArrayImpl};
 use ssdeep::{
@@ -622,8 +622,13 @@ fn gen_pool(rng: &mut Rng) -> Vec<Raw> {
     let base_log = rng.below(31) as u8;
     let long = rng.chance(1, 3);
     let cap_b = if long { 64 } else { 32 };
-    let base1 = gen_bh(rng, 64, false);
-    let base2 = gen_bh(rng, cap_b, false);
+    // one run in four: block hashes at full capacity, normalized, with runs
+    // touching both ends (bit 0 / bit 63 of the position masks)
+    let edges = rng.chance(1, 4);
+    let l1 = *rng.pick(&[64usize, 64, 63]);
+    let l2 = *rng.pick(&[cap_b, cap_b, cap_b - 1]);
+    let base1 = if edges { gen_bh_edges(rng, l1) } else { gen_bh(rng, 64, false) };
+    let base2 = if edges { gen_bh_edges(rng, l2) } else { gen_bh(rng, cap_b, false) };
     let mut pool: Vec<Raw> = Vec::new();
     pool.push((base_log, base1.clone(), base2.clone()));
     while pool.len() < n {
@@ -712,6 +717,9 @@ pub fn generate(seed: u64) -> Vec<Op> {
                                 s[p] = *rng.pick(&[64u8, 65, 100, 255]);
                             }
                             s
+                        } else if rng.chance(1, 3) {
+                            let l = *rng.pick(&[64usize, 64, 63, 33, 32]);
+                            gen_bh_edges(&mut rng, l)
                         } else {
                             gen_bh(&mut rng, 64, false)
                         };
